@@ -70,42 +70,12 @@ func runC01case(base string, c c01case, timeout time.Duration, env *c08env) c01o
 	}
 	for round := 0; round < rounds; round++ {
 		if c.realQUIC {
-			ctx, cancel := context.WithTimeout(context.Background(), 10*time.Second)
-			var sc, rc []transfer.Conn
-			var cleanups []func()
-			for i := 0; i < c.conns; i++ {
-				s, err := env.session(ctx)
-				if err != nil {
-					cancel()
-					o.setup = err
-					return o
-				}
-				// the hosting side accepts, the joining side dials (as in the application)
-				sc, rc = append(sc, s.acceptor), append(rc, s.dialer)
-				cleanups = append(cleanups, s.cleanup)
+			q := runQUIC(src, out, cfg, c.conns, env)
+			if q.setup != nil {
+				o.setup = q.setup
+				return o
 			}
-			cancel()
-			sconn, rconn := sc[0], rc[0]
-			if c.conns > 1 {
-				sconn, _ = transfer.NewMultiConn(sc)
-				rconn, _ = transfer.NewMultiConn(rc)
-			}
-			o.res = runXferOn(src, out, sconn, rconn, cfg,
-				func(sender, graceful bool) {
-					if sender {
-						if graceful {
-							// the sender has finished: give the receiver a moment to drain, as the application does
-							time.Sleep(20 * time.Millisecond)
-						}
-						sconn.Close()
-					} else {
-						rconn.Close()
-					}
-				},
-				func() { sconn.Close(); rconn.Close() })
-			for _, f := range cleanups {
-				f()
-			}
+			o.res = q.res
 		} else {
 			o.res = runXfer(src, out, cfg)
 		}
@@ -128,6 +98,55 @@ func runC01case(base string, c c01case, timeout time.Duration, env *c08env) c01o
 				o.diff = append(o.diff, "extra "+e.Name()+" beside the root directory")
 			}
 		}
+	}
+	return o
+}
+
+// runQUIC runs one transfer over real loopback QUIC sessions (conns of them,
+// combined by NewMultiConn when more than one).
+func runQUIC(src, out string, cfg xferCfg, conns int, env *c08env) c01outcome {
+	var o c01outcome
+	if conns < 1 {
+		conns = 1
+	}
+	ctx, cancel := context.WithTimeout(context.Background(), 10*time.Second)
+	var sc, rc []transfer.Conn
+	var cleanups []func()
+	for i := 0; i < conns; i++ {
+		s, err := env.session(ctx)
+		if err != nil {
+			cancel()
+			for _, f := range cleanups {
+				f()
+			}
+			o.setup = err
+			return o
+		}
+		// the hosting side accepts, the joining side dials (as in the application)
+		sc, rc = append(sc, s.acceptor), append(rc, s.dialer)
+		cleanups = append(cleanups, s.cleanup)
+	}
+	cancel()
+	sconn, rconn := sc[0], rc[0]
+	if conns > 1 {
+		sconn, _ = transfer.NewMultiConn(sc)
+		rconn, _ = transfer.NewMultiConn(rc)
+	}
+	o.res = runXferOn(src, out, sconn, rconn, cfg,
+		func(sender, graceful bool) {
+			if sender {
+				if graceful {
+					// the sender has finished: give the receiver a moment to drain, as the application does
+					time.Sleep(20 * time.Millisecond)
+				}
+				sconn.Close()
+			} else {
+				rconn.Close()
+			}
+		},
+		func() { sconn.Close(); rconn.Close() })
+	for _, f := range cleanups {
+		f()
 	}
 	return o
 }
